@@ -16,9 +16,9 @@ import (
 type ProgPkg struct {
 	Path    string
 	Name    string
-	Source  string   // one file (named File)
-	File    string   // file name, e.g. "types.go"
-	Imports []string // direct imports (paths)
+	Source  string            // one file (named File)
+	File    string            // file name, e.g. "types.go"
+	Imports []string          // direct imports (paths)
 	Extra   map[string]string // further files of the package (name -> source); used by C05
 }
 
